@@ -210,7 +210,7 @@ def text_read(fmt, endian, f):
 # ----------------------------------------------------------------------------- arc writer
 def arc_write(files, rng, padded=True, permute_bodies=True, unaligned=False, gaps=False, count_first=True,
               extra_labels=True, shuffle_tables=False, drop=None, bad_name=None, bad_range=None, count_delta=0,
-              junk_text=False, raw_offset=None, dup_strings=False, tail=0.0, end_exact=False, share=False):
+              junk_text=False, raw_offset=None, dup_strings=False, tail=0.0, end_exact=False, share=False, empty_last=False):
     """files: [(name bytes, body bytes)] in RECORD order.  Returns (image, expected) with expected = 'ok' or the
     name of the error the property demands.  Knobs: header padding, body placement (order, alignment, gaps),
     Count before/after Info, extra labels; error variants: drop = 'count' | 'info' (label missing),
@@ -219,7 +219,8 @@ def arc_write(files, rng, padded=True, permute_bodies=True, unaligned=False, gap
     Placement knobs: tail = probability that a body is placed AFTER the Count/Info tables, end_exact = the last such body
     ends exactly at the end of the data region (address + size = size of the data: the boundary of "inside"),
     share = a body whose bytes already occur among the bodies written so far may reuse that range (shared / overlapping
-    ranges).  The knobs draw random numbers only when switched on."""
+    ranges), empty_last = among the bodies placed after the tables the empty ones come last (so that an empty file's start
+    address equals the size of the data region when end_exact is set).  The knobs draw random numbers only when switched on."""
     d = bytearray()
     if padded:
         d += bytes(0x60)
@@ -283,6 +284,8 @@ def arc_write(files, rng, padded=True, permute_bodies=True, unaligned=False, gap
     else:
         put_info()
         put_count()
+    if empty_last:
+        late = [i for i in late if files[i][1]] + [i for i in late if not files[i][1]]
     for n, i in enumerate(late):
         last = n == len(late) - 1
         if gaps and rng.random() < 0.5:
